@@ -218,8 +218,12 @@ def r2(ctx, prog, ev, rep):
                     if res2 is not None and res2[0] >= tr[0] and res2[1] <= tr[1] and not validated:
                         extra = " (it would be safe if every integer in the AST were range-checked by the parser, but %s is not: C07-R2)" % \
                             [lab for lab, _, _, cls in slot_sites if any(c == "unvalidated" for c, _ in cls)]
-                    rep.bad("C08-R2", key, T.loc(node),
-                            "`%s` may overflow %s: result range [%s, %s]%s" % (_short(term), ty, _f(res[0]), _f(res[1]), extra))
+                    if s.get("pc_incomplete"):
+                        rep.unrecognised("C08-R2", key, T.loc(node), "`%s` is not shown to fit %s (range [%s, %s]) and the conditions of an early exit "
+                                         "inside a nested block before it could not be carried along" % (_short(term), ty, _f(res[0]), _f(res[1])))
+                    else:
+                        rep.bad("C08-R2", key, T.loc(node),
+                                "`%s` may overflow %s: result range [%s, %s]%s" % (_short(term), ty, _f(res[0]), _f(res[1]), extra))
             elif s["kind"] in ("call", "index"):
                 name = term.a[0] if s["kind"] == "call" else "<index>"
                 cls = None
@@ -237,7 +241,11 @@ def r2(ctx, prog, ev, rep):
                 if cls == "index":
                     n_index += 1
                     ok, why = prove_index(prog, ev, iv, p, term, pc, ctx)
-                    rep.check(ok, "C08-R2", key, T.loc(node), why, "indexing may be out of bounds: %s" % why)
+                    if not ok and s.get("pc_incomplete"):
+                        rep.unrecognised("C08-R2", key, T.loc(node), "no bound proof for this index, and the conditions of an early exit inside a "
+                                         "nested block before it could not be carried along (they may be what bounds it): %s" % why)
+                    else:
+                        rep.check(ok, "C08-R2", key, T.loc(node), why, "indexing may be out of bounds: %s" % why)
                 elif cls == "int-op" and name.endswith("::abs"):
                     n_other += 1
                     a = iv.iv(term.a[1], pc)
@@ -373,23 +381,30 @@ def prove_index(prog, ev, iv, fn, term, pc, ctx):
     # (b0) the index is the payload of an Option computed by a conditional: every `Some(x)` leaf must be in bounds under the
     #      conditions that lead to it (the `None` leaves never reach the indexing)
     Xp = uncasted(I)
-    if Xp.k == "proj" and Xp.a[1] == "Option::Some.0" and Xp.a[0].k in ("if", "match"):
+    optional = Xp.k == "proj" and Xp.a[1] == "Option::Some.0" and Xp.a[0].k in ("if", "match", "assume")
+    if optional or Xp.k in ("if", "assume"):
         leaves = []
 
         def walk(t, extra):
+            while t.k == "cast":
+                t = t.a[1]
             if t.k == "if":
                 walk(t.a[1], extra + (("if", t.a[0], True),))
                 walk(t.a[2], extra + (("if", t.a[0], False),))
-            elif t.k == "match":
+            elif t.k == "assume":
+                walk(t.a[0], extra + tuple(t.a[1]))
+            elif t.k == "match" and optional:
                 for p_, g_, b_ in t.a[1]:
                     walk(b_, extra + ((("if", g_, True),) if g_ is not None else ()))
-            elif t.k == "adt" and t.a[1] == "Some":
+            elif optional and t.k == "adt" and t.a[1] == "Some":
                 leaves.append((extra, t.a[2][0][1]))
-            elif t.k == "adt" and t.a[1] == "None":
+            elif optional and t.k == "adt" and t.a[1] == "None":
                 pass
+            elif not optional:
+                leaves.append((extra, t))
             else:
                 leaves.append((extra, None))
-        walk(Xp.a[0], ())
+        walk(Xp.a[0] if optional else Xp, ())
         if leaves and all(v is not None for _, v in leaves):
             whys = []
             for extra, v in leaves:
